@@ -245,7 +245,20 @@ class Translator:
                 self.bad(s, "assignment target")
             return out + self.block(rest, env, indent)
         if isinstance(s, ast.If):
-            c = self.cond(s.test, env)
+            pre_c = []
+            try:
+                c = self.cond(s.test, env)
+            except Untranslatable as ex:
+                if "fallible" not in str(ex):
+                    raise
+                # a test that may raise is evaluated (once, unconditionally) before the branch
+                pre_c, c = self.test_value(s.test, env)
+            if pre_c:
+                body_term = self.terminates(s.body)
+                else_term = self.terminates(s.orelse) if s.orelse else False
+                then_code = self.block(list(s.body) + ([] if body_term else rest), env, indent + 1)
+                else_code = self.block(list(s.orelse) + ([] if else_term else rest), env, indent + 1)
+                return (self.emit(pre_c, indent) + I + f"if {c} then do\n" + then_code + I + "else do\n" + else_code)
             if c == "True":
                 return self.block(list(s.body) + rest, env, indent)
             if c == "False":
@@ -470,6 +483,23 @@ class Translator:
         if isinstance(e, ast.Call):
             return self.call(e, env)
         self.bad(e)
+
+    def test_value(self, e, env):
+        """-> (prelude, decidable Prop) of an `if` test whose evaluation may raise."""
+        if isinstance(e, ast.UnaryOp) and isinstance(e.op, ast.Not):
+            p, c = self.test_value(e.operand, env)
+            return p, f"(¬ {c})"
+        if isinstance(e, ast.Compare):
+            p, t = self.bool_operand(e, env)
+            return p, f"({t} = true)"
+        p, t, k = self.expr(e, env)
+        if k == "bool":
+            return p, f"({t} = true)"
+        if k == "int":
+            return p, f"({t} ≠ 0)"
+        if k == "bytes":
+            return p, f"({t} ≠ [])"
+        self.bad(e, "truthiness")
 
     def bool_operand(self, v, env):
         """-> (prelude, Bool term) of one operand of and/or whose evaluation may raise."""
